@@ -222,16 +222,16 @@ macro_rules! value_json {
   };
 }
 value_json!(c00_value_json_eq, 0, false);
-value_json!(c00_value_json_ne, 1, false);
-value_json!(c00_value_json_lt, 2, false);
-value_json!(c00_value_json_le, 3, false);
+value_json!(c00_value_json_ne, 1, true);
+value_json!(c00_value_json_lt, 2, true);
+value_json!(c00_value_json_le, 3, true);
 value_json!(c00_value_json_gt, 4, false);
 value_json!(c00_value_json_ge, 5, false);
 
 with_validator_stubs! {
 /// JSON: a negative document against a non-negative literal under `.ne` / `.lt` / `.le`
-/// (which it satisfies). Found a defect on the original tree (repaired by "fix: compare JSON
-/// integers outside the literal's own range by sign").
+/// (which it satisfies). Isolates a listed finding (a repair was written and withdrawn, see
+/// known_findings.json).
 #[kani::proof]
 #[kani::unwind(4)]
 fn c00_value_json_neg_vs_uint() {
@@ -453,7 +453,8 @@ fn c00_value_json_text_size() {
 
 with_validator_stubs! {
 /// JSON: a document above i64::MAX against a *negative* literal under every comparison:
-/// it is greater than and different from the literal.
+/// it is greater than and different from the literal. Isolates the mirror image of the same
+/// listed finding (as_i64 is None for such a document).
 #[kani::proof]
 #[kani::unwind(4)]
 fn c00_value_json_big_vs_int() {
